@@ -74,6 +74,158 @@ class Dmn(Family):
             steps.append(st("queue_state", [q]))
         return [VL(cfg), VL(steps)]
 
+
+    # ---- memory table / ring configuration histories (C13, C14) ----
+    GPAS = [0x0, 0x1000, 0x2000, 0x3000, 0x10000, 0x11000, 0x100000000, 0xfffffffffffe0000, 0x10008, 0x20001]
+    SIZES = [0x1000, 0x2000, 0x3000, 0x1800, 0x1000, 0x2000]
+    OFFS = [0, 0x1000, 0x4000, 0x2000, 0x800, 0x1800]
+    UAS = [0x7f0000000000, 0x7f0000100000, 0x7f0000200000, 0xffffffffffff0000, 0x10000, 0x7f0000300010, 0x8000000000000000]
+
+    def region(self, rng, bad=False):
+        gpa = rng.choice(self.GPAS[:8]) if rng.chance(9, 10) else rng.choice(self.GPAS)
+        size = rng.choice(self.SIZES)
+        off = rng.choice(self.OFFS[:4]) if not bad else rng.choice(self.OFFS)
+        ua = rng.choice(self.UAS) + 0x10000 * rng.below(4)
+        if ua + size >= 2**64:
+            ua = 0xffffffffffff0000
+        f = 1 + rng.below(3)
+        return [gpa, size, ua, off, f]
+
+    def probes(self, rng, table):
+        """guest-physical probe addresses at the edges of the believed regions"""
+        if not table or rng.chance(1, 8):
+            return rng.choice(self.GPAS) + rng.choice([0, 8, 0xff8, 0x1000])
+        r = rng.choice(table)
+        return (r[0] + rng.choice([0, 8, 0x10, r[1] - 8, r[1] - 4, r[1], r[1] // 2, 0x800, -8])) % 2**64
+
+    def uprobe(self, rng, table, align):
+        if not table or rng.chance(1, 10):
+            return (rng.choice(self.UAS) + rng.choice([0, 0x40])) & ~(align - 1)
+        r = rng.choice(table)
+        d = rng.choice([0, 0x10, 0x40, 0x100, r[1] - 0x10, r[1] - 0x40, r[1], r[1] + 0x10, 0x800, -0x10, 0xff0])
+        return ((r[2] + d) % 2**64) & ~(align - 1)
+
+    def mem_history(self, rng, depth):
+        nq, cfg, feat, masks = self.cfg(rng)
+        maxq = rng.choice([256, 256, 64, 1024, 32768])
+        cfg[1] = VN(maxq)
+        steps = [st("set_protocol_features", [W.PF_ALL])]
+        for f, sz in ((1, 0x8000), (2, 0x8000), (3, 0x8000)):
+            steps.append(st("file_size", [f, sz]))
+        table = []
+        ev = [200]
+        calls = {}
+        failing = rng.chance(1, 3)          # whether this history ends with deliberately failing operations
+        def table_op(bad):
+            k = rng.below(6)
+            if k <= 1 or not table:
+                n = rng.choice([1, 1, 2, 2, 3, 4, 8 if bad else 3])
+                regs = []
+                while len(regs) < n:
+                    r = self.region(rng, bad)
+                    if bad or all(r[0] + r[1] <= x[0] or x[0] + x[1] <= r[0] for x in regs):
+                        if bad or all(r[2] + r[1] <= x[2] or x[2] + x[1] <= r[2] for x in regs):
+                            regs.append(r)
+                if not bad or rng.chance(1, 2):
+                    regs.sort()
+                elif rng.chance(1, 2):
+                    regs.append(list(regs[0]))
+                steps.append(st("set_mem_table", [], b"", regs))
+                if not bad:
+                    table[:] = regs
+            elif k <= 3:
+                r = self.region(rng, bad)
+                if not bad:
+                    for _ in range(20):
+                        if all(r[0] + r[1] <= x[0] or x[0] + x[1] <= r[0] for x in table) and \
+                           all(r[2] + r[1] <= x[2] or x[2] + x[1] <= r[2] for x in table):
+                            break
+                        r = self.region(rng, bad)
+                    else:
+                        return
+                    table.append(r)
+                elif table and rng.chance(1, 2):
+                    r = list(rng.choice(table))       # duplicate
+                steps.append(st("add_mem", r))
+            else:
+                if bad:
+                    r = list(rng.choice(table)) if table and rng.chance(2, 3) else self.region(rng)
+                    if rng.chance(1, 2):
+                        r[1] = r[1] + 0x1000 if rng.chance(1, 2) else max(0x800, r[1] - 0x800)
+                    else:
+                        r[0] = (r[0] + 0x1000) % 2**64
+                else:
+                    r = rng.choice(table)
+                    table.remove(r)
+                steps.append(st("rem_mem", r))
+        table_op(False)
+        for i in range(depth):
+            k = rng.below(20)
+            q = rng.below(nq) if rng.chance(9, 10) else rng.choice([nq, 255, 256, 70000])
+            late = failing and i >= depth - 3
+            if k <= 2:
+                table_op(late and rng.chance(2, 3))
+            elif k == 3:
+                steps.append(st("guest_write", [1 + rng.below(3), rng.choice([0, 0x1000, 0x1ff8, 0x4000, 0x2ffc])], rng.bytes(8)))
+            elif k == 4:
+                steps.append(st("write_mem", [self.probes(rng, table)], rng.bytes(rng.choice([8, 8, 4, 16, 1]))))
+            elif k == 5:
+                steps.append(st("read_mem", [self.probes(rng, table), rng.choice([8, 8, 4, 16])]))
+            elif k == 6:
+                steps.append(st("guest_read", [1 + rng.below(3), rng.choice([0, 0x1000, 0x1ff8, 0x4000, 0x2ffc, 0x7ffc]), 8]))
+            elif k == 7:
+                n = rng.choice([0, 1, 2, 3, 8, 16, 64, 100, 128, 255, 256, 257, 1024, 32768, 65535, maxq, maxq + 1, maxq // 2])
+                if not late and rng.chance(3, 4):
+                    n = rng.choice([x for x in (1, 2, 8, 16, 64, 256, 1024, 32768) if x <= maxq] + [3, 100])
+                    n = min(n, maxq)
+                steps.append(st("set_vring_num", [q, n & 0xffff]))
+            elif k == 8:
+                steps.append(st("set_vring_base", [q, rng.choice([0, 1, 7, 255, 256, 65535, rng.below(65536)])]))
+            elif k in (9, 10, 11):
+                d = self.uprobe(rng, table, 16)
+                a = self.uprobe(rng, table, 2)
+                u = self.uprobe(rng, table, 4)
+                if not late and table and rng.chance(3, 4):
+                    r = rng.choice(table)
+                    d, a, u = r[2], r[2] + 0x100, r[2] + rng.choice([0x200, 0x400, r[1] - 0x100])
+                    # the used index the guest left in memory
+                    fo = r[3] + (u + 2 - r[2])
+                    if rng.chance(2, 3):
+                        steps.append(st("guest_write", [r[4], fo], bytes([rng.below(256), rng.below(256)])))
+                steps.append(st("set_vring_addr", [q, rng.choice([0, 0, 1]), d, u, a]))
+                steps.append(st("queue_state", [q if q < nq else 0]))
+            elif k == 12:
+                steps.append(st("queue_state", [rng.below(nq)]))
+            elif k == 13:
+                steps.append(st("add_used", [rng.below(nq), rng.choice([0, 1, 5, 63, 255, 256, 1023, 65535]), rng.below(2**32)]))
+            elif k == 14:
+                ev[0] += 1
+                calls[q] = ev[0]
+                steps.append(st("set_vring_call", [q, ev[0]]))
+            elif k == 15:
+                steps.append(st("signal", [rng.below(nq)]))
+                if calls:
+                    steps.append(st("read_call", [rng.choice(sorted(calls.values()))]))
+            elif k == 16:
+                steps.append(st("get_vring_base", [q]))
+            elif k == 17:
+                steps.append(st("set_features", [rng.choice([feat, feat & ~(1 << 29), feat | (1 << 29), feat & ~PFB, 0, feat | (1 << 41)])]))
+            elif k == 18:
+                steps.append(st("regions"))
+                steps.append(st("backend_log"))
+            else:
+                steps.append(st("read_mem", [self.probes(rng, table), 8]))
+        steps.append(st("regions"))
+        steps.append(st("backend_log"))
+        for r in table[:3]:
+            steps.append(st("read_mem", [r[0] + r[1] - 8, 8]))
+            steps.append(st("guest_read", [r[4], r[3], 8]))
+        for q in range(nq):
+            steps.append(st("queue_state", [q]))
+        for c in sorted(set(calls.values())):
+            steps.append(st("read_call", [c]))
+        return [VL(cfg), VL(steps)]
+
     def routing_case(self, rng, nq, masks, kind):
         feat = PFB
         cfg = [VN(nq), VN(256), VN(feat), VN(W.PF_ALL), VL([VN(m) for m in masks]), VN(kind)]
@@ -98,6 +250,7 @@ class Dmn(Family):
     def generate(self, rng, tier):
         n = 400 if tier == "quick" else 4000
         out = [(self.ring_history(rng, 4 + rng.below(14)), "ring-history") for _ in range(n)]
+        out += [(self.mem_history(rng, 4 + rng.below(16)), "mem-history") for _ in range(n)]
         # routing: every mask set of the table x both vring kinds (complete), plus random mask sets
         for nq, sets in MASKSETS.items():
             for masks in sets:
